@@ -863,6 +863,9 @@ func smtSym(s string) string {
 	return sb.String()
 }
 
+// ufSym: uninterpreted function symbols get a prefix (newer z3 reserves sin, tanh, exp, ...).
+func ufSym(name string) string { return smtSym("u." + name) }
+
 func ratSMT(r *big.Rat) string {
 	neg := r.Sign() < 0
 	a := new(big.Rat).Abs(r)
@@ -906,9 +909,9 @@ func (p *printer) str(t *Term) string {
 		return t.Op
 	case strings.HasPrefix(t.Op, "f:"):
 		if len(t.Args) == 0 {
-			return smtSym(t.Op[2:])
+			return ufSym(t.Op[2:])
 		}
-		return p.app(smtSym(t.Op[2:]), t.Args)
+		return p.app(ufSym(t.Op[2:]), t.Args)
 	case strings.HasPrefix(t.Op, "C:"):
 		if len(t.Args) == 0 {
 			if dataDecls[t.S.Name] != nil && len(dataDecls[t.S.Name].Ctors) >= 1 {
@@ -1142,7 +1145,7 @@ func (sc *Script) Render(prelude string, preludeFuncs map[string]bool) string {
 	sort.Strings(fn)
 	for _, n := range fn {
 		t := si.funcs[n]
-		sb.WriteString("(declare-fun " + smtSym(n) + " (")
+		sb.WriteString("(declare-fun " + ufSym(n) + " (")
 		for k, a := range t.Args {
 			if k > 0 {
 				sb.WriteByte(' ')
@@ -1407,4 +1410,31 @@ func hasQuantTerm(t *Term) bool {
 		}
 	}
 	return false
+}
+
+// PowTerm: pow with small literal exponents is expanded to products / quotients / sqrt.
+func PowTerm(x, y *Term) *Term {
+	if y.IsRealLit() {
+		r := y.RatVal()
+		if r.IsInt() {
+			n := r.Num().Int64()
+			if n >= 0 && n <= 4 {
+				if n == 0 {
+					return RealOfInt(1)
+				}
+				t := x
+				for i := int64(1); i < n; i++ {
+					t = Mul(t, x)
+				}
+				return t
+			}
+			if n < 0 && n >= -4 {
+				return RDiv(RealOfInt(1), PowTerm(x, RealLit(new(big.Rat).Neg(r))))
+			}
+		}
+		if r.Cmp(big.NewRat(1, 2)) == 0 {
+			return App("sqrt", SReal, x)
+		}
+	}
+	return App("pow", SReal, x, y)
 }
